@@ -345,6 +345,24 @@ def run(tier, seed, replay=None):
                     break
                 if attempt == 2:
                     rep.fail("C10: %s: in three runs out of three datagrams were lost (last run: %d never reached the origin, %d replies never came back)" % (what, lost, noreply), rp)
+        # a neighbour that does not read: session A (CONNECT udp client, TCP) asks a chatty origin for 12000 datagrams and
+        # stops reading; session B shares the upstream path (one QUIC connection in datagram mode).  B's datagrams must go on
+        # being delivered and echoed - A's backlog is A's problem (its datagrams may be dropped, as on any UDP socket)
+        neighbours = []
+        for pth in ("c_quic_dgram", "c_quic_inline", "c_http"):
+            for attempt in (0, 1):
+                nb = uw.stalled_neighbour(w, pth, b"nb%d" % attempt)
+                if nb.get("a_established") and min(nb.get("during", 0), nb.get("later", 0)) >= 4 or not nb.get("a_established") or nb["before"] < 5:
+                    break
+            n_eval += 1
+            neighbours.append(nb)
+            dist["stalled-neighbour|" + pth] += 1
+            if nb["before"] < 5 or not nb.get("a_established"):
+                rep.fail("C10: stalled-neighbour scenario via %s could not be set up: %s" % (pth, nb), {"kind": "failing-input", "scenario": "stalled neighbour", "history": nb})
+            elif min(nb.get("during", 0), nb.get("later", 0)) < 4:
+                rep.fail("C10: via %s: while another session's client does not read its connection, a session on the same path got %d and then %d of 5 echoes (5 before, %d after the other client left)" % (
+                    pth, nb.get("during", 0), nb.get("later", 0), nb.get("after", 0)), {"kind": "failing-input", "scenario": "stalled neighbour", "history": nb})
+        all_extra += [d for t, d, a in w.origin.rx if d.startswith(b"nb") or d.startswith(b"burst ")]
         alive = w.alive()
         rx = list(w.origin.rx)
         try:
@@ -388,8 +406,8 @@ def run(tier, seed, replay=None):
             rep.fail("C10: the origin received a datagram no client sent: %r (%d bytes, %d times)" % (d[:40], len(d), c), {"kind": "failing-input", "scenario": "stray datagram at the origin"})
     rep.coverage.update({
         "evaluations": n_eval, "distinct_nontrivial": len(shapes),
-        "rule": "sessions: reverse UDP client, SOCKS5 UDP association with IPv4 destination, with domain destination (through hops) x paths %s, 3-8 datagrams of 1..8000 bytes each with gaps 0/10/50 ms, 10 sessions in flight at a time with session-tagged payloads; one empty datagram; a hand-written HTTP CONNECT udp/inline client (frames from the model's encoder) that waits for the 200 or sends its first 1-3 frames (17..20000 bytes) in the same write as the request; 5 (thorough 8) concurrent sessions on one QUIC connection (datagram and inline mode) sending 120 (300) datagrams of 2500-3900 bytes each every 4 ms" % uw.PATHS,
-        "input_distribution": dict(dist), "datagrams_at_origin": len(rx), "sessions_retried": retried, "concurrent_large_datagram_runs": storm_stats,
+        "rule": "sessions: reverse UDP client, SOCKS5 UDP association with IPv4 destination, with domain destination (through hops) x paths %s, 3-8 datagrams of 1..8000 bytes each with gaps 0/10/50 ms, 10 sessions in flight at a time with session-tagged payloads; one empty datagram; a hand-written HTTP CONNECT udp/inline client (frames from the model's encoder) that waits for the 200 or sends its first 1-3 frames (17..20000 bytes) in the same write as the request; 5 (thorough 8) concurrent sessions on one QUIC connection (datagram and inline mode) sending 120 (300) datagrams of 2500-3900 bytes each every 4 ms; a session whose TCP client stops reading while a chatty origin sends it 12000 datagrams, next to a session on the same path that must keep being served (QUIC datagram, QUIC inline, HTTP paths)" % uw.PATHS,
+        "input_distribution": dict(dist), "datagrams_at_origin": len(rx), "sessions_retried": retried, "concurrent_large_datagram_runs": storm_stats, "stalled_neighbour_runs": neighbours,
     })
     rep.assumptions = ["loopback UDP and QUIC datagrams may drop under concurrent load: a failing session is repeated alone twice and reported only if it fails every time", "the RSV bytes of the SOCKS5 UDP reply header (05 03 instead of 00 00) are not part of the property"]
     if broken and not rep.violations:
